@@ -20,7 +20,8 @@ PROP = {
     "id": "C07",
     "thm_module": "Tyme.Thm.C07",
     "thm_file": "Tyme/Thm/C07.lean",
-    "lean_targets": ["Tyme.Thm.C07"],
+    "lean_targets": ["Tyme.Thm.C07", "Tyme.Thm.Total"],
+    "fact_files": [("Tyme/Thm/Total.lean", "Tyme.Thm.Total")],
     "audit_files": ["Tyme/Lemmas/Cycle.lean", "Tyme/Model/SixtyCycle.lean", "Tyme/Model/Lunar.lean", "Tyme/Model/Term.lean",
                     "Tyme/Lemmas/LunarWalk.lean", "Tyme/Lemmas/Lunar.lean"],
     "gen": [gen_eph],
